@@ -102,7 +102,7 @@ TABLE['C09'] = {
 }
 
 TABLE['C03'] = {
-    'modules': ['contracts.graph'],
+    'modules': ['contracts.graph', 'contracts.make', 'contracts.ninja'],
     'level': 'proof',
     'assumptions': [
         'Makefile._target_str / NinjaFile._output_str are abstracted as an uninterpreted function from the thing to its escaped text (their injectivity up to the escape is C04)',
@@ -175,7 +175,7 @@ TABLE['C12'] = {
 }
 
 TABLE['C07'] = {
-    'modules': ['contracts.depfile'],
+    'modules': ['contracts.depfile', 'contracts.make'],
     'level': 'other',
     'explanation': 'real compilers and edit histories cannot be put under contract; what is decided: (proof) CcBaseCompiler._call emits -MMD -MF <depfile> whenever a depfile is requested; (bounded, real function) depfixer.emit_deps turns every well-formed gcc depfile text up to the stated bound into exactly one "dep:" rule per dependency, spelled as given -- the mechanism that keeps a build going after a header is deleted',
     'assumptions': ['the gcc depfile shape is the grammar stated in contracts/depfile.py::DepfixerReference (written from the gcc documentation of -MMD output)'],
